@@ -282,7 +282,7 @@ impl Proxy {
         // let in-flight bytes drain: the pumps exit on EOF of both sides or at the stop flag
         let t0 = Instant::now();
         if let Some(h) = self.handle.take() {
-            while !h.is_finished() && t0.elapsed() < Duration::from_millis(300) {
+            while !h.is_finished() && t0.elapsed() < Duration::from_secs(5) {
                 std::thread::sleep(Duration::from_millis(1));
             }
             self.stop.store(true, Ordering::Relaxed);
